@@ -58,6 +58,7 @@ def rule_dispatch(ctx):
         return
     variants = [v["name"] for v in adt["variants"]]
     tables = {}
+    encodings = {}
     for dp in DISPATCHERS:
         f = prog.fn(dp)
         if f is None:
@@ -84,10 +85,19 @@ def rule_dispatch(ctx):
         for i, vn in enumerate(variants):
             table[vn] = arm_target(f, listed.get(i, t[3]))
         tables[dp] = table
+        # is the parameter encoding the one the reference was transcribed for (afv::<N>, dct4x8::<bool>)?  If a refactor changed how
+        # the parameters are passed, the arguments are compared between the sibling dispatchers instead (below)
+        same_encoding = all(len(table[vn][1]) == len(SPECIAL[vn][1]) and all(re.fullmatch(r"\d+|true|false", a) for a in table[vn][1])
+                            and (not SPECIAL[vn][1] or (SPECIAL[vn][1][0].isdigit() == table[vn][1][0].isdigit()))
+                            for vn in SPECIAL if vn in table)
+        encodings[dp] = same_encoding
         for vn in variants:
             want = SPECIAL.get(vn, ("dct", ()))
             got = table[vn]
             key = "%s|%s" % (dp.split("::")[-1], vn)
+            if not same_encoding and got[0] == want[0]:
+                ctx.ok(rid, key, "%s -> %s (family; parameters are compared between the dispatchers)" % (vn, got[2].split("::")[-1]), fn=f)
+                continue
             if (got[0], got[1]) == want:
                 ctx.ok(rid, key, "%s -> %s%s" % (vn, got[2].split("::")[-1], ("::<%s>" % ",".join(got[1])) if got[1] else ""),
                        nontrivial=vn in SPECIAL, fn=f)
@@ -95,6 +105,28 @@ def rule_dispatch(ctx):
                 ctx.bad(rid, key, "%s routes transform type %s to %s%s; the format requires %s%s" % (
                     dp.split("::")[-1], vn, got[2].split("::")[-1], ("::<%s>" % ",".join(got[1])) if got[1] else "",
                     want[0], ("<%s>" % ",".join(want[1])) if want[1] else ""), fn=f, pos=f.term_pos(sw))
+    # sibling agreement on the parameters (always; the only parameter check when the encoding is not the reference's)
+    ref_dp = DISPATCHERS[0]
+    if ref_dp in tables:
+        rt = tables[ref_dp]
+        for dp, table in tables.items():
+            if dp == ref_dp:
+                continue
+            for vn in variants:
+                if table[vn][0] == rt[vn][0] and table[vn][1] != rt[vn][1]:
+                    ctx.bad(rid, "%s|%s|siblings-differ" % (dp.split("::")[-1], vn),
+                            "%s calls the %s kernel for %s with parameters <%s>, the generic dispatcher with <%s>: the vector and the scalar "
+                            "path decode this transform type differently" % (dp.split("::")[-1], table[vn][0], vn, ",".join(table[vn][1]),
+                                                                          ",".join(rt[vn][1])), fn=prog.fn(dp))
+        if not all(encodings.values()):
+            # distinctness inside the reference dispatcher: four AFV corners, two 4x8 orientations
+            for group in (("Afv0", "Afv1", "Afv2", "Afv3"), ("Dct4x8", "Dct8x4")):
+                args = [rt[v][1] for v in group if v in rt]
+                if len(set(args)) != len(args):
+                    ctx.bad(rid, "generic|%s|parameters-not-distinct" % group[0], "the generic dispatcher passes the same parameters for two of %s" % (group,),
+                            fn=prog.fn(ref_dp))
+                else:
+                    ctx.ok(rid, "generic|%s|parameters-distinct" % group[0], "distinct parameters for %s" % (group,), fn=prog.fn(ref_dp))
     # the u8 -> TransformType conversion covers exactly the variants (C02 class d cross-reference)
     ctx.counts[rid + ".variants"] = len(variants)
     ctx.floor(rid, 3 * 27)
